@@ -53,6 +53,9 @@ const (
 	QUIT
 )
 
+// errMessageTooLarge is returned by readDataBlock when the message data exceeds MaxMessageBytes.
+var errMessageTooLarge = errors.New("message data exceeds maximum message size")
+
 // fromRegex captures the from address and optional parameters.  Matches FROM, while accepting '>'
 // as quoted pair and in double quoted strings (?i) makes the regex case insensitive, (?:) is
 // non-grouping sub-match.  Accepts empty angle bracket value in options for 'AUTH=<>'.
@@ -554,6 +557,12 @@ func (s *Session) mailHandler(cmd string, arg string) {
 func (s *Session) dataHandler() {
 	s.send("354 Start mail input; end with <CRLF>.<CRLF>")
 	msgBuf, err := s.readDataBlock()
+	if err == errMessageTooLarge {
+		s.send("552 Max message size exceeded")
+		s.logger.Warn().Msgf("Client sent more than %v bytes of message data", s.config.MaxMessageBytes)
+		s.reset()
+		return
+	}
 	if err != nil {
 		if netErr, ok := err.(net.Error); ok {
 			if netErr.Timeout() {
@@ -621,9 +630,22 @@ func (s *Session) readDataBlock() ([]byte, error) {
 	if err := s.conn.SetReadDeadline(s.nextDeadline()); err != nil {
 		return nil, err
 	}
-	b, err := s.text.ReadDotBytes()
+	// Read at most one byte more than the maximum message size; an oversized message is drained
+	// and discarded so that the session stays in step with the client.
+	dr := s.text.DotReader()
+	var r io.Reader = dr
+	if s.config.MaxMessageBytes > 0 {
+		r = io.LimitReader(dr, int64(s.config.MaxMessageBytes)+1)
+	}
+	b, err := io.ReadAll(r)
 	if err != nil {
 		return nil, err
+	}
+	if s.config.MaxMessageBytes > 0 && len(b) > s.config.MaxMessageBytes {
+		if _, err := io.Copy(io.Discard, dr); err != nil {
+			return nil, err
+		}
+		return nil, errMessageTooLarge
 	}
 	if s.debug {
 		fmt.Printf("%04d   Received %d bytes\n", s.id, len(b))
